@@ -37,6 +37,23 @@ def rich_cmp_siblings(ctx, rule, K, names=OPS):
                           f"{name}: arm `{A.unparse(v)}` has the receiver on the left", node=r)
 
 
+def lossless(arg, fn):
+    """operand of a three-way comparison that preserves distinctness: attribute, `attr or const`, or a local
+    helper whose body is `<const> if v is None else v`."""
+    if isinstance(arg, ast.Attribute):
+        return True
+    if isinstance(arg, ast.BoolOp) and isinstance(arg.op, ast.Or) and isinstance(arg.values[0], ast.Attribute) and all(isinstance(v, ast.Constant) for v in arg.values[1:]):
+        return True
+    if isinstance(arg, ast.Call) and isinstance(arg.func, ast.Name) and len(arg.args) == 1 and isinstance(arg.args[0], ast.Attribute):
+        for n in ast.walk(fn.node):
+            if isinstance(n, ast.FunctionDef) and n.name == arg.func.id and len(n.body) == 1 and isinstance(n.body[0], ast.Return):
+                v = n.body[0].value
+                if isinstance(v, ast.IfExp) and "is None" in A.unparse(v.test) and (isinstance(v.body, ast.Constant) or isinstance(v.orelse, ast.Constant)):
+                    return True
+        return False
+    return False
+
+
 def run(ctx):
     P = ctx.program
     E = Engine(P)
@@ -62,7 +79,25 @@ def run(ctx):
     # versions are compared through ver_cmp on the main path
     ctx.check("R1", eq["via"], "ver_cmp" in " ".join(sorted(set().union(*eq["wrappers"].values()) if eq["wrappers"] else [])) or any(
         dotted(c.func) == "ver_cmp" for c in A.calls(eq["via"].node)), "eq-uses-ver_cmp", "CPV.__eq__ decides version equality through ver_cmp", node=eq["via"].node)
-    ctx.floor("R1", 2)
+    # the hashed/compared cpvstr is canonical in its revision: every re-rendering of "-r<rev>" goes through int()
+    cinit = CPV.methods.get("__init__")
+    ctx.require(cinit is not None, "CPV.__init__ not found")
+    rer = []
+    for c in A.calls(cinit.node):
+        if len(c.args) == 3 and A.is_const(c.args[1], "cpvstr") and isinstance(c.args[2], ast.JoinedStr):
+            js = c.args[2]
+            lits = "".join(v.value for v in js.values if isinstance(v, ast.Constant))
+            if "-r" in lits:
+                rer.append((c, js))
+    ctx.require(rer, "CPV.__init__: no re-rendering of cpvstr with a revision found; idiom changed")
+    for c, js in rer:
+        fv = [v for v in js.values if isinstance(v, ast.FormattedValue)][-1]
+        ok = isinstance(fv.value, ast.Call) and dotted(fv.value.func) == "int"
+        ctx.check("R1", cinit, ok, "cpvstr-canonical-revision", "cpvstr is rebuilt with the integer value of a zero-padded revision",
+                  f"CPV.__init__ rebuilds cpvstr with `{A.unparse(fv.value)}` instead of the integer revision: equal versions get different cpvstr (hash / equality shortcut disagree with ordering)", node=c)
+    zero_branch = [n for n in A.body_walk(cinit.node) if isinstance(n, ast.If) and A.unparse(n.test) in ("rev == 0", "not rev", "rev == '0'")]
+    ctx.check("R1", cinit, bool(zero_branch), "cpvstr-drops-r0", "a -r0 revision is dropped from cpvstr")
+    ctx.floor("R1", 4)
 
     # ---- R2: atom stored hash ---------------------------------------------------
     aeq = E.eq_spec(atom)
@@ -110,6 +145,9 @@ def run(ctx):
             la = {n.attr for n in ast.walk(c.args[0]) if isinstance(n, ast.Attribute)}
             lb = {n.attr for n in ast.walk(c.args[1]) if isinstance(n, ast.Attribute)}
             ctx.check("R3", cm, a <= {1} and b <= {2} and la == lb, f"cmp-arm@{sorted(la)}", f"cmp arm {A.unparse(c)} compares the same attribute, self first", node=c)
+            for arg in c.args:
+                ctx.check("R3", cm, lossless(arg, cm), f"cmp-arm-lossy@{sorted(la)}", f"cmp arm operand `{A.unparse(arg)}` is the attribute itself (or a None->'' default), not a lossy projection of it",
+                          f"atom.__cmp__ orders by `{A.unparse(arg)}`, a projection that merges distinct values equality tells apart: unequal atoms compare 0", node=c)
         elif nm and nm.endswith("ver_cmp") and len(c.args) == 4:
             txt = [A.unparse(x) for x in c.args]
             ctx.check("R3", cm, txt == ["self.version", "self.revision", "other.version", "other.revision"], "cmp-ver_cmp", "ver_cmp arm oriented self then other", node=c)
@@ -147,5 +185,10 @@ MUTANTS = [
     {"name": "cmp-drops-use", "file": "src/pkgcore/ebuild/atom.py", "old": "        c = cmp(self.use, other.use)\n        if c:\n            return c\n\n", "new": "", "rule": "R3"},
     {"name": "cmp-slot-swapped", "file": "src/pkgcore/ebuild/atom.py", "old": "c = cmp(f(self.slot), f(other.slot))", "new": "c = cmp(f(other.slot), f(self.slot))", "rule": "R3"},
     {"name": "cpv-hash-key-only", "file": "src/pkgcore/ebuild/cpv.py", "old": "        return hash(self.cpvstr)", "new": "        return hash((self.key, self.fullver))", "rule": "R1"},
+]
+MUTANTS += [
+    {"name": "hash-of-str", "file": "src/pkgcore/ebuild/atom.py", "old": "        self._hash = hash(\n            (\n                self.cpvstr,", "new": "        self._hash = hash(\n            (\n                str(self),\n                self.cpvstr,", "rule": "R2"},
+    {"name": "cmp-lossy-slot-operator", "file": "src/pkgcore/ebuild/atom.py", "old": "c = cmp(f(self.slot_operator), f(other.slot_operator))", "new": "c = cmp(self.slot_operator == '=', other.slot_operator == '=')", "rule": "R3"},
+    {"name": "cpvstr-strip-zero", "file": "src/pkgcore/ebuild/cpv.py", "old": "-r{int(rev)}", "new": "-r{rev.strip('0')}", "rule": "R1"},
 ]
 TWINS = []
